@@ -58,6 +58,7 @@ type safroleView struct {
 	e, m, e2, m2 types.TimeSlot
 	eta          types.EntropyBuffer // η′ (η′0 not yet known: it depends on the block's own entropy source)
 	kappa        types.ValidatorsData
+	lambda       types.ValidatorsData // λ′
 	gammaK       types.ValidatorsData
 	gammaS       types.TicketsOrKeys
 }
@@ -96,9 +97,11 @@ func (a *author) view(st *types.State, slot types.TimeSlot, newOffenders []types
 		off := append(append([]types.Ed25519Public(nil), st.Psi.Offenders...), newOffenders...)
 		v.gammaK = zeroOffenders(st.Iota, off)
 		v.kappa = append(types.ValidatorsData(nil), st.Gamma.GammaK...)
+		v.lambda = append(types.ValidatorsData(nil), st.Kappa...)
 	} else {
 		v.gammaK = st.Gamma.GammaK
 		v.kappa = st.Kappa
+		v.lambda = st.Lambda
 	}
 	switch {
 	case v.e2 == v.e+1 && int(v.m) >= types.SlotSubmissionEnd && len(st.Gamma.GammaA) == types.EpochLength:
@@ -259,8 +262,8 @@ func headerHash(h types.Header) types.HeaderHash {
 }
 
 // mkTickets makes n ticket envelopes for the block at `slot` on prior state st, sorted by identifier.
-func (a *author) mkTickets(st *types.State, slot types.TimeSlot, picks [][2]int) types.TicketsExtrinsic {
-	sv := a.view(st, slot, nil)
+func (a *author) mkTickets(st *types.State, slot types.TimeSlot, picks [][2]int, newOffenders ...types.Ed25519Public) types.TicketsExtrinsic {
+	sv := a.view(st, slot, newOffenders)
 	type te struct {
 		id  types.TicketID
 		env types.TicketEnvelope
